@@ -55,7 +55,13 @@ func genRates(r *rand.Rand, maxRates int) []rateSpec {
 		if r.IntN(4) == 0 {
 			avg = int64(1 + r.IntN(100))
 		}
+		if r.IntN(10) == 0 && p <= 2*time.Second { // API-gateway style: thousands per second (token times far below a millisecond)
+			avg = pick(r, []int64{2500, 5000, 20000, 100000})
+		}
 		burst := 1 + r.Int64N(5*avg)
+		if avg >= 2500 {
+			burst = 1 + r.Int64N(50)
+		}
 		if r.IntN(4) == 0 {
 			burst = 5 * avg
 		}
